@@ -45,6 +45,14 @@
 (* address outside it -- it spends the budget of its peer and only of its  *)
 (* peer.  (Peers that are themselves configured trusted proxies are not    *)
 (* generated: for them the statement does not say whose address counts.)   *)
+(*                                                                         *)
+(* An element of Addrs is one client as the server sees it: the exact text *)
+(* of its remote address, the same in every request of a history.  The     *)
+(* model does not care how that text looks; the harness therefore renders  *)
+(* each client, per history, in one of the forms a remote address takes    *)
+(* (plain IPv4, plain IPv6, link-local IPv6 with a zone, IPv4-mapped       *)
+(* IPv6), and every edge -- in particular "blocked after N failures" and   *)
+(* "success clears" -- must hold for each of them.                         *)
 (***************************************************************************)
 EXTENDS Integers, FiniteSets, Sequences, TLC, Json
 
